@@ -258,6 +258,16 @@ class Functor(pg_object.Object, utils.Functor):
     # pylint: enable=protected-access
     return typing.cast(Functor, other)
 
+  def sym_jsonify(self, **kwargs) -> utils.JSONValueType:
+    """Converts current functor to a dict of plain Python objects."""
+    json_dict = super().sym_jsonify(**kwargs)
+    # NOTE: arguments that are not specified hold their default values. They
+    # are left out, so that loading the functor back does not bind them.
+    for name in list(self._sym_attributes.keys()):
+      if name not in self._specified_args:
+        json_dict.pop(name, None)
+    return json_dict
+
   def _on_change(self, field_updates: Dict[utils.KeyPath, base.FieldUpdate]):
     """Custom handling field change to update bound args."""
     for relative_path, update in field_updates.items():
